@@ -140,7 +140,7 @@ def resolve(qual):
     raise ImportError(qual)
 
 
-NP_DT = {"f32": np.float32, "f64": np.float64, "f": np.float64, "i16": np.int16, "i32": np.int32, "i64": np.int64,
+NP_DT = {"f32": np.float32, "f64": np.float64, "f": np.float64, "r32": np.float32, "r64": np.float64, "i16": np.int16, "i32": np.int32, "i64": np.int64,
          "i": np.int64, "u16": np.uint16, "u32": np.uint32, "u8": np.uint8, "bool": np.bool_}
 
 
@@ -183,6 +183,11 @@ def run_contract(rt, cc, func, args_by_name, call=None):
     ns = dict(rt.ns)
     ns.update(args_by_name)
     out = {"pre_ok": True, "pre_failed": [], "raised": None, "violated": [], "errors": []}
+    for p, ty in cc.types.items():
+        if isinstance(ty, str) and ty.startswith("r") and "[" in ty and p in args_by_name:
+            if not np.all(np.isfinite(args_by_name[p])):  # declared invariant of finite-real arrays
+                out["pre_ok"] = False
+                out["pre_failed"].append("finite:" + p)
     for cl in cc.requires:
         code, _ = compile_clause(cl.expr)
         try:
@@ -338,7 +343,9 @@ def default_sample(cc, rng):
             else:
                 nd = dims.count(":")
                 shape = tuple(int(rng.integers(1, 5)) for _ in range(nd))
-                if base[0] == "f":
+                if base[0] == "r":
+                    args[p] = rng.integers(-3, 9, size=shape).astype(NP_DT[base])
+                elif base[0] == "f":
                     a = np.array([FLOAT_VALUES[i] for i in rng.integers(0, len(FLOAT_VALUES), size=int(np.prod(shape)))])
                     args[p] = a.astype(NP_DT[base]).reshape(shape)
                 elif base == "bool":
